@@ -6,6 +6,7 @@ import XC.Model.C52_Pairing
 import XC.Proofs.C52_Codec
 import XC.Proofs.C52_Field
 import XC.Proofs.C52_Bits
+import XC.Proofs.C52_Alias
 namespace XC.C52
 
 /-! ## G1 encodings -/
